@@ -250,7 +250,7 @@ class Facts:
         """yield (crate, item) with full path in item['fpath']"""
         for c, d in self.crates.items():
             for it in d[kind]:
-                it.setdefault("fpath", c + "::" + it["path"] if "path" in it else None)
+                it.setdefault("fpath", it.get("path"))
                 yield c, it
 
     def const(self, fpath):
